@@ -13,6 +13,8 @@ Directive grammar (each on its own line, inside the template):
   //@rule <ID> <count|*> s<delim>regex<delim>replacement<delim>            applied to the body
   //@rule <ID> <count|*> closure<delim>anchor-regex<delim>header<delim>    every `<anchor>([move] |x| BODY)`: the closure gets
              `header` (`$x` = its parameter) and BODY is kept verbatim as the block the header's contract is proved about
+  //@rule <ID> <count|*> block<delim>anchor-regex<delim>replacement<delim>   every `<anchor>{ balanced block }` is replaced by
+             `replacement` (`$body` = the block)
   //@loops <n>           the body must contain exactly n loops (else lost anchor)
   //@loop <k>            following lines go between the k-th loop header and its '{'
   //@attr <line>         attribute line put before the item (e.g. #[verifier::exec_allows_no_decreases_clause])
@@ -164,10 +166,39 @@ def apply_closure_rule(body, rid, want, delim, rest, counts):
     return "".join(out)
 
 
+def apply_block_rule(body, rid, want, delim, rest, counts):
+    """`//@rule <ID> <n> block<d>anchor-regex<d>replacement<d>`: every `<anchor>{ ... }` (anchor text
+    followed by a balanced brace block) is replaced, anchor and block, by `replacement`
+    (`$body` stands for the block, braces included)."""
+    parts = rest.split(delim)
+    if len(parts) < 3:
+        raise Undecided(f"bad //@rule: {rid} block")
+    anchor, repl = parts[0], parts[1]
+    rx = re.compile(anchor + r"(?=\{)", re.S)
+    mask = rscan.code_mask(body)
+    out, pos, n = [], 0, 0
+    for m in rx.finditer(body):
+        if m.start() < pos or not mask[m.start()]:
+            continue
+        end = rscan.match_brace(body, mask, m.end()) + 1
+        out.append(body[pos:m.start()])
+        out.append(repl.replace("$body", body[m.end():end]))
+        pos = end
+        n += 1
+    out.append(body[pos:])
+    counts[rid] = counts.get(rid, 0) + n
+    if want != "*" and int(want) != n:
+        raise Undecided(f"lost anchor: rule {rid} expected {want} block(s) after /{anchor}/, found {n}")
+    return "".join(out)
+
+
 def apply_rule(body, spec, counts):
     m = re.match(r"(\S+)\s+(\S+)\s+closure(.)(.*)$", spec, re.S)
     if m:
         return apply_closure_rule(body, m.group(1), m.group(2), m.group(3), m.group(4), counts)
+    m = re.match(r"(\S+)\s+(\S+)\s+block(.)(.*)$", spec, re.S)
+    if m:
+        return apply_block_rule(body, m.group(1), m.group(2), m.group(3), m.group(4), counts)
     m = re.match(r"(\S+)\s+(\S+)\s+s(.)(.*)$", spec, re.S)
     if not m:
         raise Undecided(f"bad //@rule: {spec}")
